@@ -314,6 +314,25 @@ def fam_recreated(tier: str, rng: random.Random) -> Iterator[dict]:
             yield q
 
 
+def fam_late_inv(tier: str, rng: random.Random) -> Iterator[dict]:
+    """Classes decorated with invariants AFTER their subclasses have been created, in every order: decorating a class
+    must never change what its bases or siblings check."""
+    ons = ["CALL", "SETATTR", "ALL"]
+    for shape in ("chain2", "chain3", "siblings"):
+        n = len(SHAPES[shape])
+        orders = [o for r in (1, 2, 3) for o in itertools.permutations(range(1, n + 1), r) if r <= n]
+        for at_def in itertools.product([[], ["CALL"]], repeat=n):
+            for order in orders:
+                for _ in range(1 if tier == "quick" else 3):
+                    h = make_hist(shape, [(0, 0, 0)] + [None] * (n - 1), [list(x) for x in at_def], kind="fn",
+                                  tag="late-inv-" + shape)
+                    h["posthoc"] = []
+                    for k in order:
+                        h["con"].append({"role": "inv", "on": rng.choice(ons), "name": 0})
+                        h["posthoc"].append({"k": k, "name": "f", "d": {"d": "invariant", "c": len(h["con"])}})
+                    yield h
+
+
 def fam_foreign_hier(tier: str, rng: random.Random) -> Iterator[dict]:
     """Overrides that carry foreign functools.wraps decorators above / between / below their contract decorators,
     in hierarchies (the merged contracts must land on the one real checker)."""
